@@ -638,4 +638,284 @@ theorem parseModifiers_sat (mtoks : List Tok) (pos : Nat) (h : G ts e s)
   · exact absurd h1 (by decide)
   · exact h1
 
+/-! ### Notes, aliases, the three components -/
+
+theorem noteP_sat (hw : WF ts) (h : G ts e s) :
+    Sat (noteP (α := α)) s (fun _ s' => G ts e s' ∧ s.cur ≤ s'.cur) := by
+  unfold noteP
+  apply withRecover_sat
+  refine Sat.bind (Sat.mono (consumeK_sat _ h) ?_)
+  rintro r1 s1 ⟨g1, h1⟩
+  cases r1 with
+  | none => exact Sat.pure ⟨g1.setCur h.le, Nat.le_refl _⟩
+  | some o =>
+    obtain ⟨-, -, c1⟩ := h1
+    refine Sat.bind (currentOffset_sat g1 ?_)
+    refine Sat.bind (Sat.mono (untilK_sat _ g1) ?_)
+    rintro r2 s2 ⟨g2, h2⟩
+    cases r2 with
+    | none => exact Sat.pure ⟨g2.setCur h.le, Nat.le_refl _⟩
+    | some n =>
+      obtain ⟨c2, hn, ⟨c, hc, hck⟩, -⟩ := h2
+      refine Sat.bind (Sat.mono (bump_sat g2 hc (by simpa using hck)) ?_)
+      rintro _ s3 ⟨-, g3, c3⟩
+      have hr : RunAt (offAt ts s1.cur) n := by rw [hn]; exact slice_runAt hw.run c2
+      refine Sat.bind (bpText_sat hr ?_)
+      exact Sat.pure ⟨g3, by omega⟩
+
+theorem runAt_split {off : Nat} {l : List Tok} {i : Nat} {t : Tok} (h : RunAt off l)
+    (ht : l[i]? = some t) : RunAt off (l.take i) ∧ RunAt t.stop (l.drop (i + 1)) := by
+  have hi : i < l.length := getElem?_lt ht
+  have e1 : l = l.take i ++ (t :: l.drop (i + 1)) := by
+    have h1 : l.drop i = t :: l.drop (i + 1) := by
+      rw [List.drop_eq_getElem_cons hi]
+      rw [List.getElem?_eq_getElem hi] at ht
+      simp only [Option.some.injEq] at ht
+      rw [ht]
+    rw [← h1, List.take_append_drop]
+  rw [e1, runAt_append] at h
+  refine ⟨h.1, ?_⟩
+  obtain ⟨⟨-, hc⟩, he⟩ := h.2
+  exact ⟨hc, fun x hx => he x (by simp [hx])⟩
+
+theorem parseAlias_sat (container : String) {toks : List Tok} {off : Nat} (hr : RunAt off toks)
+    (h : G ts e s) :
+    Sat (parseAlias (α := α) container toks off) s (fun _ s' => G ts e s' ∧ s'.cur = s.cur) := by
+  unfold parseAlias
+  refine Sat.bind (hasExt_sat h ?_)
+  dsimp only
+  split
+  · refine Sat.bind (bpText_sat hr ?_)
+    exact Sat.pure ⟨h, rfl⟩
+  · rename_i i hi
+    have hfi : toks.findIdx? (fun t => t.kind == .or) = some i := by
+      split at hi
+      · exact hi
+      · cases hi
+    have hlt : i < toks.length := by
+      rw [List.findIdx?_eq_some_iff_getElem] at hfi
+      exact hfi.1
+    have hget : toks[i]? = some toks[i] := List.getElem?_eq_getElem hlt
+    obtain ⟨hr1, hr2⟩ := runAt_split hr hget
+    simp only [hget, Option.getD_some]
+    refine Sat.bind (bpText_sat hr2 ?_)
+    refine Sat.bind (Sat.get ?_)
+    apply Sat.bind
+    apply Sat.mono (Q := fun _ s' => G ts e s' ∧ s'.cur = s.cur)
+    · split
+      · refine Sat.bind (Sat.perr ?_); intro evs
+        exact Sat.pure ⟨h.setEvs evs, rfl⟩
+      · split
+        · refine Sat.bind (Sat.perr ?_); intro evs
+          exact Sat.pure ⟨h.setEvs evs, rfl⟩
+        · exact Sat.pure ⟨h, rfl⟩
+    rintro alias s1 ⟨g1, c1⟩
+    refine Sat.bind (bpText_sat hr1 ?_)
+    exact Sat.pure ⟨g1, c1⟩
+
+theorem checkEmptyName_sat (container : String) (name : Text) (h : G ts e s) :
+    Sat (checkEmptyName (α := α) container name) s (fun _ s' => G ts e s' ∧ s'.cur = s.cur) := by
+  unfold checkEmptyName
+  refine Sat.bind (Sat.get ?_)
+  split
+  · refine Sat.perr ?_; intro evs
+    exact ⟨h.setEvs evs, rfl⟩
+  · exact Sat.pure ⟨h, rfl⟩
+
+theorem checkNoteTimer_sat (h : G ts e s) :
+    Sat (checkNoteTimer (α := α)) s (fun _ s' => G ts e s' ∧ s'.cur = s.cur) := by
+  unfold checkNoteTimer
+  apply Sat.bind
+  apply Sat.mono (Q := fun _ s' => G ts e s' ∧ s'.cur = s.cur)
+  · apply withRecover_sat
+    refine Sat.bind (Sat.mono (consumeK_sat _ h) ?_)
+    rintro r1 s1 ⟨g1, h1⟩
+    cases r1 with
+    | none => exact Sat.pure ⟨g1.setCur h.le, rfl⟩
+    | some o =>
+      obtain ⟨-, -, c1⟩ := h1
+      refine Sat.bind (Sat.mono (untilK_sat _ g1) ?_)
+      rintro r2 s2 ⟨g2, h2⟩
+      cases r2 with
+      | none => exact Sat.pure ⟨g2.setCur h.le, rfl⟩
+      | some n =>
+        obtain ⟨c2, -, ⟨c, hc, hck⟩, -⟩ := h2
+        refine Sat.bind (Sat.mono (bump_sat g2 hc (by simpa using hck)) ?_)
+        rintro _ s3 ⟨-, g3, c3⟩
+        refine Sat.bind (Sat.pwarn ?_); intro evs
+        exact Sat.pure ⟨(g3.setEvs evs).setCur h.le, rfl⟩
+  rintro _ s1 ⟨g1, c1⟩
+  exact Sat.pure ⟨g1, c1⟩
+
+theorem ingredientP_sat (hw : WF ts) (h : G ts e s) :
+    Sat (ingredientP (α := α)) s (fun r s' => G ts e s' ∧ (r.isSome = true → s.cur < s'.cur)) := by
+  unfold ingredientP
+  refine Sat.bind (currentOffset_sat h ?_)
+  refine Sat.bind (Sat.mono (consumeK_sat _ h) ?_)
+  rintro r1 s1 ⟨g1, h1⟩
+  cases r1 with
+  | none => exact Sat.pure ⟨g1, by simp⟩
+  | some m =>
+    obtain ⟨-, -, c1⟩ := h1
+    refine Sat.bind (currentOffset_sat g1 ?_)
+    refine Sat.bind (Sat.mono (modifiersP_sat g1) ?_)
+    rintro mtoks s2 ⟨g2, c2, hm⟩
+    refine Sat.bind (currentOffset_sat g2 ?_)
+    refine Sat.bind (Sat.mono (compBody_sat hw g2) ?_)
+    rintro r3 s3 ⟨g3, h3⟩
+    cases r3 with
+    | none => exact Sat.pure ⟨g3, by simp⟩
+    | some body =>
+      obtain ⟨c3, hname, hq⟩ := h3
+      refine Sat.bind (Sat.mono (noteP_sat hw g3) ?_)
+      rintro note s4 ⟨g4, c4⟩
+      refine Sat.bind (currentOffset_sat g4 ?_)
+      refine Sat.bind (Sat.mono (parseAlias_sat "ingredient" hname g4) ?_)
+      rintro ⟨name, alias⟩ s5 ⟨g5, c5⟩
+      dsimp only
+      refine Sat.bind (Sat.mono (checkEmptyName_sat "ingredient" name g5) ?_)
+      rintro _ s6 ⟨g6, c6⟩
+      refine Sat.bind (Sat.mono (parseModifiers_sat mtoks _ g6 hm) ?_)
+      rintro pm s7 ⟨g7, c7, -⟩
+      apply Sat.bind
+      apply Sat.mono (Q := fun _ s' => G ts e s' ∧ s'.cur = s7.cur)
+      · split
+        · rename_i qt hqt
+          refine Sat.bind (Sat.mono (parseQuantity_sat (hq qt hqt) g7) ?_)
+          rintro q s8 ⟨g8, c8⟩
+          exact Sat.pure ⟨g8, c8⟩
+        · exact Sat.pure ⟨g7, rfl⟩
+      rintro quantity s8 ⟨g8, c8⟩
+      exact Sat.pure ⟨g8, fun _ => by omega⟩
+
+theorem cookwareP_sat (hw : WF ts) (h : G ts e s) :
+    Sat (cookwareP (α := α)) s (fun r s' => G ts e s' ∧ (r.isSome = true → s.cur < s'.cur)) := by
+  unfold cookwareP
+  refine Sat.bind (currentOffset_sat h ?_)
+  refine Sat.bind (Sat.mono (consumeK_sat _ h) ?_)
+  rintro r1 s1 ⟨g1, h1⟩
+  cases r1 with
+  | none => exact Sat.pure ⟨g1, by simp⟩
+  | some m =>
+    obtain ⟨-, -, c1⟩ := h1
+    refine Sat.bind (currentOffset_sat g1 ?_)
+    refine Sat.bind (Sat.mono (modifiersP_sat g1) ?_)
+    rintro mtoks s2 ⟨g2, c2, hm⟩
+    refine Sat.bind (currentOffset_sat g2 ?_)
+    refine Sat.bind (Sat.mono (compBody_sat hw g2) ?_)
+    rintro r3 s3 ⟨g3, h3⟩
+    cases r3 with
+    | none => exact Sat.pure ⟨g3, by simp⟩
+    | some body =>
+      obtain ⟨c3, hname, hq⟩ := h3
+      refine Sat.bind (Sat.mono (noteP_sat hw g3) ?_)
+      rintro note s4 ⟨g4, c4⟩
+      refine Sat.bind (currentOffset_sat g4 ?_)
+      refine Sat.bind (Sat.mono (parseAlias_sat "cookware" hname g4) ?_)
+      rintro ⟨name, alias⟩ s5 ⟨g5, c5⟩
+      dsimp only
+      refine Sat.bind (Sat.mono (checkEmptyName_sat "cookware" name g5) ?_)
+      rintro _ s6 ⟨g6, c6⟩
+      apply Sat.bind
+      apply Sat.mono (Q := fun _ s' => G ts e s' ∧ s'.cur = s6.cur)
+      · split
+        · rename_i qt hqt
+          refine Sat.bind (Sat.mono (parseQuantity_sat (hq qt hqt) g6) ?_)
+          rintro q s7 ⟨g7, c7⟩
+          split
+          · refine Sat.bind (Sat.perr ?_); intro evs
+            exact Sat.pure ⟨g7.setEvs evs, c7⟩
+          · exact Sat.pure ⟨g7, c7⟩
+        · exact Sat.pure ⟨g6, rfl⟩
+      rintro quantity s7 ⟨g7, c7⟩
+      refine Sat.bind (Sat.mono (parseModifiers_sat mtoks _ g7 hm) ?_)
+      rintro pm s8 ⟨g8, c8, hrec⟩
+      split
+      · refine Sat.bind (Sat.perr ?_); intro evs
+        split
+        · rename_i hc
+          obtain ⟨t, htm, htk⟩ := hrec hc
+          split
+          · refine Sat.bind (Sat.perr ?_); intro evs'
+            exact Sat.pure ⟨(g8.setEvs evs).setEvs evs', fun _ => by show s.cur < s8.cur; omega⟩
+          · rename_i hnone
+            exfalso
+            rw [List.find?_eq_none] at hnone
+            exact hnone t htm (by simp [htk])
+        · exact Sat.pure ⟨g8.setEvs evs, fun _ => by show s.cur < s8.cur; omega⟩
+      · split
+        · rename_i hc
+          obtain ⟨t, htm, htk⟩ := hrec hc
+          split
+          · refine Sat.bind (Sat.perr ?_); intro evs'
+            exact Sat.pure ⟨(g8).setEvs evs', fun _ => by show s.cur < s8.cur; omega⟩
+          · rename_i hnone
+            exfalso
+            rw [List.find?_eq_none] at hnone
+            exact hnone t htm (by simp [htk])
+        · exact Sat.pure ⟨g8, fun _ => by show s.cur < s8.cur; omega⟩
+
+/-- `m` keeps the invariant and does not move the cursor, from every good state -/
+structure Stay {β : Type} (ts : List Tok) (e : Ext) (m : P α β) : Prop where
+  run : ∀ s : BP α, G ts e s → Sat m s (fun _ s' => G ts e s' ∧ s'.cur = s.cur)
+
+theorem Stay.bind {β γ : Type} {m : P α β} {k : β → P α γ} (hm : Stay ts e m) (hk : ∀ a, Stay ts e (k a)) :
+    Stay ts e (m >>= k) := by
+  constructor
+  intro s h
+  refine Sat.bind (Sat.mono (hm.run s h) ?_)
+  rintro a s1 ⟨g1, c1⟩
+  refine Sat.mono ((hk a).run s1 g1) ?_
+  rintro b s2 ⟨g2, c2⟩
+  exact ⟨g2, c2.trans c1⟩
+
+theorem Stay.pure {β : Type} (a : β) : Stay ts e (Pure.pure a : P α β) := ⟨fun s h => ⟨h, rfl⟩⟩
+theorem Stay.perr (k : String) (l : List Span) : Stay ts e (perr (α := α) k l) := ⟨fun s h => ⟨h.setEvs _, rfl⟩⟩
+theorem Stay.pwarn (k : String) (l : List Span) : Stay ts e (pwarn (α := α) k l) := ⟨fun s h => ⟨h.setEvs _, rfl⟩⟩
+theorem Stay.pushEv (ev : Ev α) : Stay ts e (pushEv ev) := ⟨fun s h => ⟨h.setEvs _, rfl⟩⟩
+theorem Stay.get : Stay ts e (get : P α (BP α)) := ⟨fun s h => ⟨h, rfl⟩⟩
+theorem Stay.hasExt (f : Nat) : Stay ts e (hasExt (α := α) f) := ⟨fun s h => ⟨h, rfl⟩⟩
+theorem Stay.bpText {off : Nat} {l : List Tok} (hr : RunAt off l) : Stay ts e (bpText (α := α) off l) :=
+  ⟨fun s h => bpText_sat hr ⟨h, rfl⟩⟩
+theorem Stay.parseQuantity {q : List Tok} (hq : WF q) : Stay ts e (parseQuantity (α := α) q) :=
+  ⟨fun s h => parseQuantity_sat hq h⟩
+theorem Stay.checkNoteTimer : Stay ts e (checkNoteTimer (α := α)) := ⟨fun s h => checkNoteTimer_sat h⟩
+
+/-- one step of the structural proof that a block of code stays put -/
+macro "stay_step" : tactic => `(tactic| first
+  | exact Stay.pure _ | exact Stay.perr _ _ | exact Stay.pwarn _ _ | exact Stay.pushEv _
+  | exact Stay.get | exact Stay.hasExt _ | exact Stay.checkNoteTimer | assumption
+  | intro _
+  | apply Stay.bind
+  | dsimp only
+  | split)
+
+theorem timerP_sat (hw : WF ts) (h : G ts e s) :
+    Sat (timerP (α := α)) s (fun r s' => G ts e s' ∧ (r.isSome = true → s.cur < s'.cur)) := by
+  unfold timerP
+  refine Sat.bind (currentOffset_sat h ?_)
+  refine Sat.bind (Sat.mono (consumeK_sat _ h) ?_)
+  rintro r1 s1 ⟨g1, h1⟩
+  cases r1 with
+  | none => exact Sat.pure ⟨g1, by simp⟩
+  | some m =>
+    obtain ⟨-, -, c1⟩ := h1
+    refine Sat.bind (Sat.mono (modifiersP_sat g1) ?_)
+    rintro mtoks s2 ⟨g2, c2, hm⟩
+    refine Sat.bind (currentOffset_sat g2 ?_)
+    refine Sat.bind (Sat.mono (compBody_sat hw g2) ?_)
+    rintro r3 s3 ⟨g3, h3⟩
+    cases r3 with
+    | none => exact Sat.pure ⟨g3, by simp⟩
+    | some body =>
+      obtain ⟨c3, hname, hq⟩ := h3
+      refine Sat.bind (currentOffset_sat g3 ?_)
+      refine Sat.mono (Q := fun _ s' => G ts e s' ∧ s'.cur = s3.cur) ?_
+        (by rintro r s' ⟨g, c⟩; exact ⟨g, fun _ => by omega⟩)
+      refine Stay.run ?_ s3 g3
+      have hs1 : Stay ts e (bpText (α := α) (offAt ts s2.cur) body.name) := Stay.bpText hname
+      have hs2 : ∀ qt, body.quantity = some qt → Stay ts e (parseQuantity (α := α) qt) :=
+        fun qt hqt => Stay.parseQuantity (hq qt hqt)
+      repeat (first | stay_step | (apply hs2; assumption))
+
 end Cook
